@@ -9,7 +9,8 @@
    [mismatches] returns (case index, code):
      1  model and implementation disagree                               (correspondence)
      9  the model or the specification's closure ran out of fuel        (correspondence)
-     2  a definition the specification needs is missing from the implementation's output
+     2  a definition or an include the specification needs (something needed is written
+        through it) is missing from the implementation's output
      3  the output contains a struct-like the specification does not need
      4  the output contains an include the specification does not need
      5  the trimmed program does not pass semantic analysis (TrimAST failed after
@@ -350,7 +351,7 @@ Definition check (c : case) : list N :=
       (match needed_nodes pr cf p K with
        | None => [9%N]
        | Some nd =>
-         (if forallb (fun n => negb (is_def_node n) || present p obs n) nd then [] else [2%N]) ++
+         (if forallb (fun n => present p obs n) nd then [] else [2%N]) ++
          (if forallb (fun o => match o with Some n => node_mem n nd | None => false end) (present_struct_likes p obs)
           then [] else [3%N]) ++
          (if forallb (fun o => match o with
